@@ -104,6 +104,7 @@ fn generated() -> Vec<Base> {
     {
         let mut xbook = book.clone();
         xbook.sheets[0].tables.push(MTable { name: "T1".into(), columns: vec!["a".into(), "b".into()], rect: ((0, 0), (4, 1)), header_rows: None, totals_rows: Some(1) });
+        xbook.sheets[0].tables.push(MTable { name: "T2Ins".into(), columns: vec!["c".into(), "d".into()], rect: ((10, 3), (12, 4)), header_rows: None, totals_rows: None });
         xbook.sheets[0].shared.push(MShared { si: 0, rect: ((30, 5), (33, 6)), master: (30, 5), text: "A1+$B$2".into() });
         for r in 30..34 {
             for c in 5..7 {
@@ -566,7 +567,7 @@ impl Prop for C06 {
         "fault_enumeration"
     }
     fn rule(&self) -> String {
-        "base corpus = every xls/xlsx/xlsm/xlsb/ods fixture of the repository plus one generated feature-complete workbook per format (VBA project, merges, table, shared formula, names, every cell kind, multi-CONTINUE SST); fault atoms enumerated per base: zip (part dropped / emptied / truncated / randomised, archive truncated, EOCD corrupted), XML (per distinct element/attribute pair: 22 hostile values incl. 0, -1, 2^32, 1e20, A0, ZZZZZZZ1, 1:1, B2:A1, XFE1, XFD1048576, 2 KB, invalid UTF-8, 300 nested brackets, multi-byte punctuation in formula position, invalid entities / character references, 1E400; attribute deleted; text nodes likewise; start tag deleted / duplicated, end tag deleted), BIFF (per record type: deleted, duplicated, payload truncated to every length 0..24 and len-1, length field 0xFFFF, stream cut inside the record, (empty) CONTINUE spliced, every 16-bit field of the first 24 bytes to 0/1/0x7FFF/0xFFFF, 32-bit fields to extremes, formula token bytes / cce), compound file (every header field to extremes, looping DIFAT chain x declared DIFAT count, FAT and mini-FAT entries to self-loop / cycle / out of range / FREESECT / ENDOFCHAIN, directory start / size / type / name, truncation at sector boundaries +-1), XLSB (per record type: deleted, duplicated, truncated, length varint extremes, 32-bit fields), MS-OVBA (container signature / chunk header / copy tokens / raw chunk / truncations; dir-stream record ids, lengths, offsets, counts, code page). Every case is opened with its format's reader (and through auto-detection: every case in thorough, every 4th in quick) and every API of the property's observe_at list is called on up to 5 sheet names and a missing name. Thorough adds 1-3 random byte edits on top of every k-th atom. Non-trivial = every faulted file; distinct by hash of the file.".into()
+        "base corpus = every xls/xlsx/xlsm/xlsb/ods fixture of the repository plus one generated feature-complete workbook per format (VBA project, merges, table, shared formula, names, every cell kind, multi-CONTINUE SST); fault atoms enumerated per base: zip (part dropped / emptied / truncated / randomised, archive truncated, EOCD corrupted), XML (per distinct element/attribute pair: 24 hostile values incl. 0, -1, 2^32, 1e20, A0, ZZZZZZZ1, 1:1, B2:A1, XFE1, XFD1048576, 2 KB, invalid UTF-8, 300 nested brackets, multi-byte punctuation in formula position, invalid entities / character references, 1E400; attribute deleted; text nodes likewise; start tag deleted / duplicated, end tag deleted), BIFF (per record type: deleted, duplicated, payload truncated to every length 0..24 and len-1, length field 0xFFFF, stream cut inside the record, (empty) CONTINUE spliced, SST strings ending 0-2 bytes before a record end followed by CONTINUE records of 0-2 bytes, every 16-bit field of the first 24 bytes to 0/1/0x7FFF/0xFFFF, 32-bit fields to extremes, formula token bytes / cce), compound file (every header field to extremes, looping DIFAT chain x declared DIFAT count, FAT and mini-FAT entries to self-loop / cycle / out of range / FREESECT / ENDOFCHAIN, directory start / size / type / name, truncation at sector boundaries +-1), XLSB (per record type: deleted, duplicated, truncated, length varint extremes, 32-bit fields), MS-OVBA (container signature / chunk header / copy tokens / raw chunk / chunk decompressing past 4096 bytes / truncations; dir-stream record ids, lengths, offsets, counts, code page). Every case is opened with its format's reader (and through auto-detection: every case in thorough, every 4th in quick) and every API of the property's observe_at list is called on up to 5 sheet names and a missing name. Thorough adds 1-3 random byte edits on top of every k-th atom. Non-trivial = every faulted file; distinct by hash of the file.".into()
     }
     fn assumptions(&self) -> Vec<String> {
         vec![
@@ -592,7 +593,7 @@ impl Prop for C06 {
             v.push(format!("{}:open_error", f));
         }
         v.push("auto_detection_driven".into());
-        for a in ["none", "zip:part_dropped", "zip:part_truncated", "zip:archive_truncated", "xml:attr", "xml:text", "xml:start_tag_deleted", "xml:end_tag_deleted", "biff:payload_truncated", "biff:field16", "biff:length_field", "biff:continue_spliced", "biff:formula_cce", "cfb:header", "cfb:difat_cycle", "cfb:fat_entry", "cfb:dir_entry", "cfb:truncated", "xlsb:payload_truncated", "xlsb:length_field", "xlsb:field32", "ovba:dir_container", "ovba:module_container", "ovba:dir_record_len", "ovba:module_offset", "vba:cfb"] {
+        for a in ["none", "zip:part_dropped", "zip:part_truncated", "zip:archive_truncated", "xml:attr", "xml:text", "xml:start_tag_deleted", "xml:end_tag_deleted", "biff:payload_truncated", "biff:field16", "biff:length_field", "biff:continue_spliced", "biff:sst_tiny_continue", "biff:formula_cce", "cfb:header", "cfb:difat_cycle", "cfb:fat_entry", "cfb:dir_entry", "cfb:truncated", "xlsb:payload_truncated", "xlsb:length_field", "xlsb:field32", "ovba:dir_container", "ovba:module_container", "ovba:dir_record_len", "ovba:module_offset", "vba:cfb"] {
             v.push(format!("atom:{}", a));
         }
         v
